@@ -14,7 +14,7 @@ for d in sorted(glob.glob('/verif/seeded/C*-m*'), key=lambda p: (p.split('/')[-1
     if len(summ) > 170:
         summ = summ[:167] + '…'
     if m.get('neutralised_by'):
-        rows.append(f"| {i} | {summ} | — (neutralised by the F15 repair: the demonstration no longer fails) |")
+        rows.append(f"| {i} | {summ} | — ({m.get('neutralised_short', 'neutralised by a later repair')}) |")
     else:
         rows.append(f"| {i} | {summ} | {'; '.join(dets) if dets else 'NOT CAUGHT'} |")
 table = "| id | change | caught by (check: first detectors) |\n|---|---|---|\n" + "\n".join(rows) + "\n"
